@@ -289,7 +289,7 @@ def load_and_concatenate(prefix, nprocs=1, directory=".", count=None):
 
     for rank in range(nprocs):
         fname = os.path.join(
-            directory, prefix + '_' + str(rank) + '_' + str(count) + '.npz'
+            directory, prefix + '_' + str(rank) + '_%05d' % count + '.npz'
         )
 
         data = load(fname)
